@@ -17,7 +17,7 @@ func init() {
 	register(&Check{
 		ID: "C14", Level: "exploration", Primary: "control_shapes", EvalCount: "controls_checked",
 		Rule: "control values are built through gldap's exported types/constructors: paging sizes over {0,1,127,128,2^31-1,2^31,2^32-1}+random with cookies of 0..70000 arbitrary bytes; Behera grace/expire over " +
-			"0..2^31-1 and error 0..8 (all 2^3 option subsets, error codes up to 300 must be rejected); VChu warning over int64 boundaries; ManageDsaIT both criticalities; the three Microsoft controls; VChu must-change; " +
+			"0..2^31-1 and error 0..8 (all 2^3 option subsets, each in every order of its options; error codes up to 300 must be rejected); VChu warning over int64 boundaries; ManageDsaIT both criticalities; the three Microsoft controls; VChu must-change; " +
 			"generic ControlString with OIDs other than the typed ones (incl. near misses), both criticalities, empty/binary/long values; 1..6 controls per message in random order; control instances are also re-used: encoded, their exported fields changed, and encoded again (directly and on consecutive responses). Request direction: Encode() output is attached " +
 			"to Bind/Search/Modify/Add/Delete requests and compared with what the handler's Controls list holds; the same bytes go through the strict parser and go-ldap's DecodeControl. Response direction: SetControls on Bind and " +
 			"SearchDone responses, observed by go-ldap's SimpleBind/Search and the strict parser on a wiretap copy. distinct_nontrivial = distinct (type, field-value classes, direction, neighbours) signatures",
@@ -26,7 +26,7 @@ func init() {
 		Phases: func(tier string, seed int64) []Phase {
 			return []Phase{{Name: "request-direction", Run: c14Request}, {Name: "response-direction", Run: c14Response}, {Name: "constructors", Run: c14Constructors}, {Name: "instance-reuse", Run: c14Reuse}}
 		},
-		MinObserved: []string{"controls_checked", "request_direction_controls", "response_direction_controls", "goldap_decodes_compared", "reused_instance_encodings", "responses_with_a_non_success_result_code"},
+		MinObserved: []string{"controls_checked", "request_direction_controls", "response_direction_controls", "goldap_decodes_compared", "reused_instance_encodings", "responses_with_a_non_success_result_code", "behera_constructor_calls_with_reordered_options"},
 	})
 }
 
@@ -502,6 +502,21 @@ func c14Reuse(c *Ctx) {
 	}
 }
 
+// c14Perms: all orders of n (<= 3) things.
+func c14Perms(n int) [][]int {
+	switch n {
+	case 2:
+		return [][]int{{0, 1}, {1, 0}}
+	case 3:
+		return [][]int{{0, 1, 2}, {0, 2, 1}, {1, 0, 2}, {1, 2, 0}, {2, 0, 1}, {2, 1, 0}}
+	}
+	p := make([]int, n)
+	for i := range p {
+		p[i] = i
+	}
+	return [][]int{p}
+}
+
 // c14Constructors: the Behera constructor never yields more than one of
 // grace/expire/error and rejects error codes above 8 (exhaustive option subsets).
 func c14Constructors(c *Ctx) {
@@ -525,32 +540,42 @@ func c14Constructors(c *Ctx) {
 						opts = append(opts, gldap.WithErrorCode(code))
 						set++
 					}
-					b, err := gldap.NewControlBeheraPasswordPolicy(opts...)
-					c.Count("controls_checked", 1)
-					c.Count("behera_constructor_calls", 1)
-					c.Distinct("control_shapes", fmt.Sprintf("behera-ctor/%d/%v/%v", mask, code > 8, err == nil))
-					det := map[string]any{"mask": mask, "grace": g, "expire": e, "code": code}
-					switch {
-					case set > 1 && err == nil:
-						c.Violate("Behera constructor yields a control with more than one of grace, expire and error", fmt.Sprint(det), det)
-					case mask&4 != 0 && code > 8 && err == nil:
-						c.Violate("Behera constructor accepts an error code above 8", fmt.Sprint(det), det)
-					case set <= 1 && !(mask&4 != 0 && code > 8) && err != nil:
-						c.Violate("Behera constructor rejects a valid option set", err.Error(), det)
-					}
-					if err == nil {
-						n := 0
-						if b.Grace() >= 0 {
-							n++
+					// the options in every order (the outcome is a property of the set, not of the sequence)
+					for pi, perm := range c14Perms(len(opts)) {
+						po := make([]gldap.Option, len(opts))
+						for k, j := range perm {
+							po[k] = opts[j]
 						}
-						if b.Expire() >= 0 {
-							n++
+						if pi > 0 {
+							c.Count("behera_constructor_calls_with_reordered_options", 1)
 						}
-						if ec, _ := b.ErrorCode(); ec >= 0 {
-							n++
-						}
-						if n > 1 {
+						b, err := gldap.NewControlBeheraPasswordPolicy(po...)
+						c.Count("controls_checked", 1)
+						c.Count("behera_constructor_calls", 1)
+						c.Distinct("control_shapes", fmt.Sprintf("behera-ctor/%d/%v/%v", mask, code > 8, err == nil))
+						det := map[string]any{"mask": mask, "grace": g, "expire": e, "code": code, "option_order": perm}
+						switch {
+						case set > 1 && err == nil:
 							c.Violate("Behera constructor yields a control with more than one of grace, expire and error", fmt.Sprint(det), det)
+						case mask&4 != 0 && code > 8 && err == nil:
+							c.Violate("Behera constructor accepts an error code above 8", fmt.Sprint(det), det)
+						case set <= 1 && !(mask&4 != 0 && code > 8) && err != nil:
+							c.Violate("Behera constructor rejects a valid option set", err.Error(), det)
+						}
+						if err == nil {
+							n := 0
+							if b.Grace() >= 0 {
+								n++
+							}
+							if b.Expire() >= 0 {
+								n++
+							}
+							if ec, _ := b.ErrorCode(); ec >= 0 {
+								n++
+							}
+							if n > 1 {
+								c.Violate("Behera constructor yields a control with more than one of grace, expire and error", fmt.Sprint(det), det)
+							}
 						}
 					}
 					if mask&4 == 0 {
